@@ -29,7 +29,14 @@ type (
 		Params []Param
 		Body   Expr
 	}
-	Paren struct{ E Expr }
+	Paren    struct{ E Expr }
+	Await    struct{ E Expr } // await e
+	MethCall struct {         // recv.name(args); User: name is defined by the program (gets the unit suffix)
+		Recv Expr
+		Name string
+		Args []Expr
+		User bool
+	}
 )
 
 type Param struct{ N, T string }
@@ -59,7 +66,13 @@ type (
 	}
 	Throw struct{ Sym string }
 	Defer struct{ E Expr } // defer println(E)
-	Do    struct {
+	Yield struct{ E Expr }
+	ForIn struct { // for V in E … end
+		V    string
+		E    Expr
+		Body []Stmt
+	}
+	Do struct {
 		Body     []Stmt
 		CatchSym string // "" = no catch
 		Catch    []Stmt
@@ -74,12 +87,35 @@ type Def struct {
 	Ret    string
 	Throws string // "" or ":neg"
 	Body   []Stmt
+	Kind   string // "" | "gen" (def *name) | "async" (async def name) | "init"
+}
+
+// Class is a class (or module) with one attribute, an optional init and instance (module) methods.
+type Class struct {
+	Module  bool
+	Name    string
+	Attr    *Param
+	Init    *Def
+	Methods []*Def
 }
 
 type Prog struct {
-	Name string
-	Defs []*Def
-	Main []Stmt
+	Name    string
+	Classes []*Class
+	Defs    []*Def
+	Main    []Stmt
+}
+
+// bodies returns every method-like body of the program: top-level methods, then inits and methods of classes.
+func (p *Prog) bodies() []*Def {
+	out := append([]*Def(nil), p.Defs...)
+	for _, c := range p.Classes {
+		if c.Init != nil {
+			out = append(out, c.Init)
+		}
+		out = append(out, c.Methods...)
+	}
+	return out
 }
 
 // ---------------------------------------------------------------------------------------------
@@ -92,7 +128,12 @@ type printer struct {
 
 var prec = map[string]int{"||": 1, "&&": 2, "==": 3, "!=": 3, "<": 4, "<=": 4, ">": 4, ">=": 4, "+": 5, "-": 5, "*": 6, "%": 6}
 
-func (p *printer) name(n string) string { return n + p.sfx }
+func (p *printer) name(n string) string {
+	if strings.HasPrefix(n, "@") {
+		return n // instance variables belong to the (already renamed) class
+	}
+	return n + p.sfx
+}
 
 func (p *printer) expr(e Expr) string {
 	switch v := e.(type) {
@@ -129,6 +170,27 @@ func (p *printer) expr(e Expr) string {
 			f = "(" + f + ")"
 		}
 		return f + ".(" + strings.Join(as, ", ") + ")"
+	case Await:
+		return "await " + p.expr(v.E)
+	case MethCall:
+		var as []string
+		for _, a := range v.Args {
+			as = append(as, p.expr(a))
+		}
+		r := p.expr(v.Recv)
+		switch v.Recv.(type) {
+		case Var, Paren, Call, Lit:
+		default:
+			r = "(" + r + ")"
+		}
+		n := v.Name
+		if v.User {
+			n = p.name(n)
+		}
+		if len(as) == 0 {
+			return r + "." + n
+		}
+		return r + "." + n + "(" + strings.Join(as, ", ") + ")"
 	case Clo:
 		body := p.expr(v.Body)
 		if len(v.Params) == 0 {
@@ -148,7 +210,7 @@ func needParen(child Expr, parent int, right bool) bool {
 	switch c := child.(type) {
 	case Bin:
 		return prec[c.Op] < parent || (right && prec[c.Op] == parent)
-	case Clo:
+	case Clo, Await:
 		return true
 	}
 	return false
@@ -196,6 +258,12 @@ func (p *printer) stmt(ind int, s Stmt) {
 		p.emit(ind, "throw "+v.Sym)
 	case Defer:
 		p.emit(ind, "defer println("+p.expr(v.E)+")")
+	case Yield:
+		p.emit(ind, "yield "+p.expr(v.E))
+	case ForIn:
+		p.emit(ind, "for "+p.name(v.V)+" in "+p.expr(v.E))
+		p.stmts(ind+1, v.Body)
+		p.emit(ind, "end")
 	case Do:
 		p.emit(ind, "do")
 		p.stmts(ind+1, v.Body)
@@ -213,29 +281,62 @@ func (p *printer) stmt(ind int, s Stmt) {
 	}
 }
 
-func (p *printer) def(d *Def) {
+func (p *printer) def(ind int, d *Def) {
 	var ps []string
 	for _, q := range d.Params {
 		ps = append(ps, p.name(q.N)+": "+q.T)
 	}
-	h := "def " + p.name(d.Name)
+	var h string
+	switch d.Kind {
+	case "gen":
+		h = "def *" + p.name(d.Name)
+	case "async":
+		h = "async def " + p.name(d.Name)
+	case "init":
+		h = "init"
+	default:
+		h = "def " + p.name(d.Name)
+	}
 	if len(ps) > 0 {
 		h += "(" + strings.Join(ps, ", ") + ")"
 	}
-	h += ": " + d.Ret
+	if d.Kind != "init" {
+		h += ": " + d.Ret
+	}
 	if d.Throws != "" {
 		h += " ! " + d.Throws
 	}
-	p.emit(0, h)
-	p.stmts(1, d.Body)
+	p.emit(ind, h)
+	p.stmts(ind+1, d.Body)
+	p.emit(ind, "end")
+}
+
+func (p *printer) class(c *Class) {
+	kw := "class "
+	if c.Module {
+		kw = "module "
+	}
+	p.emit(0, kw+p.name(c.Name))
+	if c.Attr != nil {
+		p.emit(1, "attr "+c.Attr.N+": "+c.Attr.T)
+	}
+	if c.Init != nil {
+		p.def(1, c.Init)
+	}
+	for _, m := range c.Methods {
+		p.def(1, m)
+	}
 	p.emit(0, "end")
 }
 
 // printUnit returns the definition lines and the main lines.
 func printUnit(pr *Prog, sfx string) (defs, main []string) {
 	p := &printer{sfx: sfx}
+	for _, c := range pr.Classes {
+		p.class(c)
+	}
 	for _, d := range pr.Defs {
-		p.def(d)
+		p.def(0, d)
 	}
 	defs = p.lines
 	p.lines = nil
@@ -283,6 +384,10 @@ func describe(s Stmt) string {
 		return "throw"
 	case Defer:
 		return "defer"
+	case Yield:
+		return "yield"
+	case ForIn:
+		return "for-in"
 	case Do:
 		return "do"
 	}
@@ -303,6 +408,10 @@ func exprKind(e Expr) string {
 		return "closure-call"
 	case Clo:
 		return "closure-literal"
+	case Await:
+		return "await"
+	case MethCall:
+		return "method-call"
 	}
 	return "?"
 }
@@ -343,6 +452,10 @@ func (ed *editor) e(x Expr, ctx string) Expr {
 		out = CallFn{ed.e(v.F, "callee"), ed.es(v.Args, "argument")}
 	case Clo:
 		out = Clo{v.Params, ed.e(v.Body, "closure-body")}
+	case Await:
+		out = Await{ed.e(v.E, "awaited")}
+	case MethCall:
+		out = MethCall{ed.e(v.Recv, "receiver"), v.Name, ed.es(v.Args, "argument"), v.User}
 	}
 	if ed.kind == "paren" {
 		if ed.n == ed.target {
@@ -385,6 +498,10 @@ func (ed *editor) stmt(s Stmt, where string) Stmt {
 		return v
 	case Defer:
 		return Defer{ed.e(v.E, "argument")}
+	case Yield:
+		return Yield{ed.e(v.E, "yielded")}
+	case ForIn:
+		return ForIn{v.V, ed.e(v.E, "iterated"), ed.list(v.Body, "for-in")}
 	case Do:
 		return Do{ed.list(v.Body, "do"), v.CatchSym, ed.list(v.Catch, "catch"), ed.list(v.Finally, "finally"), v.HasFin}
 	}
@@ -393,8 +510,26 @@ func (ed *editor) stmt(s Stmt, where string) Stmt {
 
 func (ed *editor) prog(p *Prog) *Prog {
 	q := &Prog{Name: p.Name}
+	where := map[string]string{"": "method", "gen": "generator", "async": "async-method", "init": "init"}
+	cp := func(d *Def, in string) *Def {
+		if d == nil {
+			return nil
+		}
+		return &Def{d.Name, append([]Param(nil), d.Params...), d.Ret, d.Throws, ed.list(d.Body, in), d.Kind}
+	}
 	for _, d := range p.Defs {
-		q.Defs = append(q.Defs, &Def{d.Name, d.Params, d.Ret, d.Throws, ed.list(d.Body, "method")})
+		q.Defs = append(q.Defs, cp(d, where[d.Kind]))
+	}
+	for _, c := range p.Classes {
+		nc := &Class{Module: c.Module, Name: c.Name, Attr: c.Attr, Init: cp(c.Init, "init")}
+		for _, m := range c.Methods {
+			in := "instance-" + where[m.Kind]
+			if c.Module {
+				in = "module-" + where[m.Kind]
+			}
+			nc.Methods = append(nc.Methods, cp(m, in))
+		}
+		q.Classes = append(q.Classes, nc)
 	}
 	q.Main = ed.list(p.Main, "top-level")
 	return q
@@ -411,7 +546,7 @@ func countSites(p *Prog, kind string) int {
 // top level) is renamed at its declaration and at every use inside that scope (closure bodies included).
 
 type scopeNames struct {
-	scope int // index into Defs, len(Defs) = top level
+	scope int // index into Prog.bodies(), len(bodies) = top level
 	names []string
 }
 
@@ -453,6 +588,13 @@ func declared(p *Prog) []scopeNames {
 					add(q.N)
 				}
 				we(v.Body)
+			case Await:
+				we(v.E)
+			case MethCall:
+				we(v.Recv)
+				for _, a := range v.Args {
+					we(a)
+				}
 			}
 		}
 		ws = func(ss []Stmt) {
@@ -469,6 +611,12 @@ func declared(p *Prog) []scopeNames {
 					we(v.E)
 				case Defer:
 					we(v.E)
+				case Yield:
+					we(v.E)
+				case ForIn:
+					add(v.V)
+					we(v.E)
+					ws(v.Body)
 				case Ret:
 					we(v.E)
 				case RetIf:
@@ -491,10 +639,11 @@ func declared(p *Prog) []scopeNames {
 		ws(body)
 		return ns
 	}
-	for i, d := range p.Defs {
+	bodies := p.bodies()
+	for i, d := range bodies {
 		out = append(out, scopeNames{i, collect(d.Params, d.Body)})
 	}
-	out = append(out, scopeNames{len(p.Defs), collect(nil, p.Main)})
+	out = append(out, scopeNames{len(bodies), collect(nil, p.Main)})
 	return out
 }
 
@@ -535,6 +684,10 @@ func rename(p *Prog, scope int, from, to string) *Prog {
 			return CallFn{re(v.F), res(v.Args)}
 		case Clo:
 			return Clo{rps(v.Params), re(v.Body)}
+		case Await:
+			return Await{re(v.E)}
+		case MethCall:
+			return MethCall{re(v.Recv), v.Name, res(v.Args), v.User}
 		}
 		return x
 	}
@@ -555,6 +708,10 @@ func rename(p *Prog, scope int, from, to string) *Prog {
 				out = append(out, Print{re(v.E)})
 			case Defer:
 				out = append(out, Defer{re(v.E)})
+			case Yield:
+				out = append(out, Yield{re(v.E)})
+			case ForIn:
+				out = append(out, ForIn{r(v.V), re(v.E), rs(v.Body)})
 			case Ret:
 				out = append(out, Ret{re(v.E)})
 			case RetIf:
@@ -571,18 +728,14 @@ func rename(p *Prog, scope int, from, to string) *Prog {
 		}
 		return out
 	}
-	q := &Prog{Name: p.Name}
-	for i, d := range p.Defs {
-		if i == scope {
-			q.Defs = append(q.Defs, &Def{d.Name, rps(d.Params), d.Ret, d.Throws, rs(d.Body)})
-		} else {
-			q.Defs = append(q.Defs, d)
-		}
-	}
-	if scope == len(p.Defs) {
-		q.Main = rs(p.Main)
+	q := (&editor{kind: "copy", target: -1}).prog(p) // deep copy
+	bodies := q.bodies()
+	if scope == len(bodies) {
+		q.Main = rs(q.Main)
 	} else {
-		q.Main = p.Main
+		d := bodies[scope]
+		d.Params = rps(d.Params)
+		d.Body = rs(d.Body)
 	}
 	return q
 }
